@@ -383,6 +383,9 @@ impl ExtendedKey {
     /// Decodes an extended key from a string
     pub fn decode(s: &str) -> Result<ExtendedKey, ChainGangError> {
         let v = s.from_base58().map_err(|e| ChainGangError::Base58Error(format!("{:?}",e)))?;
+        if v.len() != 82 {
+            return Err(ChainGangError::BadArgument("Invalid extended key length".to_string()));
+        }
         let checksum = sha256d(&v[..78]);
         if checksum.0[..4] != v[78..] {
             return Err(ChainGangError::BadArgument("Invalid checksum".to_string()));
